@@ -24,8 +24,10 @@ def measure : List Item → Nat
 
 /-- The `for g in t.graphemes(true)` loop of `truncate_str_impl` for one text run. Returns the
 clusters kept (plus possibly the fill character), the new value of `used`, and whether a
-cluster did not fit (the `break`).
-Dev profile: the `debug_assert!(width_of_grapheme <= 2)` is a panic point. -/
+cluster did not fit (the `break`). A cluster wider than 2 columns that does not fit: the fallback
+pushes the fill character `display_width.saturating_sub(used)` times (`used` is not advanced) — since
+fix d6cf9d0; before it (`Generated.wrapTruncAssertsWideCluster`, read from the source on every run) the
+`debug_assert!(width_of_grapheme <= 2)` in front of the fallback was a panic point of the dev profile. -/
 def truncText (dw : Nat) (fill : Option G) : List G → Nat → Except Err (List G × Nat × Bool)
   | [], used => .ok ([], used, false)
   | g :: gs, used =>
@@ -33,7 +35,9 @@ def truncText (dw : Nat) (fill : Option G) : List G → Nat → Except Err (List
       match fill with
       | some f =>
         if g.w = 2 ∧ used < dw then .ok ([f], used, true)
-        else if 2 < g.w then .error (.panic "strange grapheme width")
+        else if 2 < g.w then
+          if Generated.wrapTruncAssertsWideCluster = true then .error (.panic "strange grapheme width")
+          else .ok (List.replicate (dw - used) f, used, true)
         else .ok ([], used, true)
       | none => .ok ([], used, true)
     else
